@@ -240,6 +240,26 @@ func (w *world) apply(s *state, label string, r *engine.Report) (ns *state, sig,
 				return nil, "", ""
 			}
 			t.CreationTimeMarshaled = o.CreationTimeMarshaled
+		case "record-copy":
+			// the other token's whole stored record (its id field included) placed under this token's id.
+			// Only with a storage wrapper: the property promises nothing about edited records in an
+			// unwrapped store (there the copy makes the use remove the *other* token's record).
+			if !w.cfg.Wrapper {
+				return nil, "", ""
+			}
+			other := "T1"
+			if tn == "T1" {
+				other = "T2"
+			}
+			o := w.stored(s, other)
+			if o == nil || s.tok[other].Tamper != "" {
+				// only an *untouched* record is copied: a copy of an already edited
+				// record composes that edit (e.g. the known downgrade finding, or an
+				// id field that makes the use remove another record) with this one,
+				// and re-inserting records is something no storage-side sealing can prevent
+				return nil, "", ""
+			}
+			t = o
 		case "flip":
 			if len(t.CreationTimeMarshaled) == 0 {
 				return nil, "", ""
@@ -314,7 +334,7 @@ func labels() []string {
 		for _, k := range []string{"K1", "K2"} {
 			ls = append(ls, "use:"+t+":"+k)
 		}
-		for _, kind := range []string{"clear-time", "transplant", "flip", "downgrade"} {
+		for _, kind := range []string{"clear-time", "transplant", "record-copy", "flip", "downgrade"} {
 			ls = append(ls, "tamper:"+t+":"+kind)
 		}
 	}
@@ -401,7 +421,7 @@ func init() {
 	engine.Register(&engine.CheckDef{
 		ID:    "C06",
 		Level: "model_checking",
-		Rule: "BFS (quick depth 4, thorough depth 6) over {create T1|T2, use Ti by K1|K2, authorize Kj, remove Kj, age by lifetime-1ns | 1ns | 2*lifetime, tamper Ti with clear-time | transplant | bit-flip | downgrade} on the real registration code under a frozen virtual clock, for 6 configurations (storage wrapper off/on x maximum lifetime 1h, 1ns, 14d); state key = per token (presence, exact age up to lifetime+1ns, tamper tag, consumed) and per key whether it has a record; " +
+		Rule: "BFS (quick depth 4, thorough depth 6) over {create T1|T2, use Ti by K1|K2, authorize Kj, remove Kj, age by lifetime-1ns | 1ns | 2*lifetime, tamper Ti with clear-time | transplant of the sealed value | copy of the other token's whole record | bit-flip | downgrade} on the real registration code under a frozen virtual clock, for 6 configurations (storage wrapper off/on x maximum lifetime 1h, 1ns, 14d); state key = per token (presence, exact age up to lifetime+1ns, tamper tag, consumed) and per key whether it has a record; " +
 			"distinct_nontrivial = number of canonical states reached over all configurations",
 		Assumptions: []string{"the storage wrapper is length-guarded: an edited record can hand go-kms-wrapping's aead wrapper a ciphertext shorter than its nonce, which panics inside that dependency (not attributed to this library)", "the tie age == lifetime is not constrained (the property says 'exceeds')", "without a storage wrapper the stored clear creation time is what governs expiry (the property promises tamper resistance only with a wrapper)"},
 		Shards:      func(c *engine.Ctx) int { return 6 },
